@@ -24,7 +24,8 @@ MIN_NONTRIVIAL = {"quick": 1000, "thorough": 15000}
 REQUIRED_COUNTERS = {"ctx_checked": {"quick": 10000, "thorough": 200000},
                      "target_supported_rendered": {"quick": 2000, "thorough": 30000},
                      "target_unsupported": {"quick": 50, "thorough": 500},
-                     "multiline_with": {"quick": 300, "thorough": 3000}}
+                     "multiline_with": {"quick": 300, "thorough": 3000},
+                     "edited_twins_under_the_same_name": {"quick": 200, "thorough": 3000}}
 SHARD_TIMEOUT = {"quick": 400, "thorough": 5400}
 INTERPS = ["3.12", "3.11", "3.10", "3.9"]
 
@@ -140,6 +141,26 @@ def worker(spec):
                 drive.drive_suspended(code, kind, spec.get("seed", 0) * 131 + r, observe)
             else:
                 drive.drive_running(code, kind, spec.get("seed", 0) * 131 + r, probe)
+        if nprog % 4 == 0:
+            # the same function edited and loaded again (reload, REPL redefinition): same file name, same function
+            # name and first line, same bytecode - but other target names and with statements one line further down
+            import re
+            import linecache
+            lines = src.split("\n")
+            twin = "\n".join(lines[:1] + ["    # edited"] + lines[1:])
+            twin = re.sub(r"\b([vw])(\d+)\b", lambda m: "r" + m.group(1) + m.group(2), twin)
+            try:
+                code2 = compile(twin, filename, "exec")
+            except SyntaxError:
+                code2 = None
+            if code2 is not None:
+                linecache.cache[filename] = (len(twin), None, twin.splitlines(True), filename)
+                res.count("edited_twins_under_the_same_name")
+                state.update(label=label + ("edited twin",), src=twin, failed=False, windex=ctxmon.WithIndex(twin))
+                if mode == "suspended":
+                    drive.drive_suspended(code2, kind, spec.get("seed", 0) * 131, observe)
+                else:
+                    drive.drive_running(code2, kind, spec.get("seed", 0) * 131, probe)
         if nprog <= 1:
             res.sample({"label": label, "source": src})
     return res
